@@ -6,25 +6,25 @@ P = "engine P: contracts on the real functions (source re-read from /repo on eve
 B = "engine B: the same kind of contracts checked at run time on the real functions over exhaustively enumerated small scopes with an independent oracle - BOUNDED stand-in, never counted as proved"
 KERNELS = {
  "C01": "NumpyFileReader.read_chunk/_get_buffer/__add_newline_to_end/__read_raw_chunk byte conservation (loop invariant; seek and gzip-carry modes; with and without entry marker) for an abstract cut function, incl. the line-number offset of a propagated format error; cut points of DelimitedBuffer.from_raw_buffer (last newline), OneLineBuffer.from_raw_buffer (two-line FASTA, FASTQ: last newline completing an entry) and MultiLineFastaBuffer.from_raw_buffer (last '>' at a line start)",
- "C02": "DelimitedBuffer._get_buffer_extractor / _modify_for_carriage_return: the field table (starts, ends, CR exclusion, entry starts/ends) for any rows x columns, LF and CRLF; OneLineBuffer._get_buffer_extractor for FASTA2/FASTQ (line roles, marker offset, CR stripped per line); VCFBuffer._get_field_by_number (POS-1 for column 1 only)",
+ "C02": "DelimitedBuffer._get_buffer_extractor / _modify_for_carriage_return: the field table (starts, ends, CR exclusion, entry starts/ends) for any rows x columns, LF and CRLF; OneLineBuffer._get_buffer_extractor for FASTA2/FASTQ (line roles, marker offset, CR stripped per line); VCFBuffer._get_field_by_number (POS-1 for column 1 only); TextBufferExtractor.get_digit_array: the digits-only matrix is chosen only when no field of the column starts with '+' or '-', sign masks per row",
  "C03": "MultiLineFastaBuffer.from_data wrapping arithmetic and line table for any width W>=1 (prefix of the function); NpBufferedWriter.write: header emitted iff due and the class invariant 'flag set iff header emitted' (8 instances) - hence the header is written exactly once over any sequence of writes; VCFBuffer.from_data / process_field_for_write (POS+1 on a new column, table untouched); OneLineBuffer.join_fields for 2 and 4 lines per entry (marker, field text and newline of every line at the prefix sums of the line lengths, written through the ragged view into the returned buffer)",
  "C04": "TextThroughputExtractor._make_contigous / __getitem__ / get_fields_by_range / concatenate (2 and 3 buffers): rows and fields kept, offsets re-based; BamBufferExtractor.__getitem__ / _make_contigous (binary records: selection and compaction keep every record's bytes; memoised field-offset tables held by the instance are those of the CURRENT layout after compaction)",
  "C05": "the store bookkeeping of the lazy table class built by create_lazy_class for a real entry type (__replace__, __setattr__, __getitem__, __getattr__) as finite-map VCs over every set/cached configuration: overlay and cache stay aligned, the operand is never modified",
  "C06": "AlphabetEncoding._initialize for an arbitrary alphabet of 1, 2 and 4 symbolic symbols against the spec lookup for every byte; _encode (raises iff a foreign byte) and _decode against that contract; DigitEncodingFactory._encode/_decode for every offset; the alphabet re-target rule of as_encoded_array",
  "C07": "strops.split (single separator): rows are exactly the text between consecutive separators (telescoping lemma by induction); strops.join (its inverse: row i at C(i)+i followed by the separator, final separator dropped unless keep_last); the re-target rule applied to an operand of another alphabet encoding by ==, != and assignment",
- "C08": "merge_intervals for sorted input and any distance >= 0: the result is the list of maximal runs (groups tile the input, every member lies inside its output row, no gap larger than the distance inside a group, consecutive rows more than the distance apart; the function's final assert is discharged); extend_to_size and clip (pointwise clauses)",
+ "C08": "merge_intervals for sorted input and any distance >= 0: the result is the list of maximal runs (groups tile the input, every member lies inside its output row, no gap larger than the distance inside a group, consecutive rows more than the distance apart; the function's final assert is discharged); extend_to_size and clip (pointwise clauses); get_pileup: the run-length builder receives the caller's start / stop columns unchanged (every row) and the contig size, the empty table gives one zero run",
  "C09": "GenomicRunLengthArray.from_intervals event/value layout for all four prefix/postfix combinations; from_bedgraph (n >= 1, with and without size): gap, leading and trailing zero runs, row i becomes run i + gaps before i + [start_0 != 0]",
  "C10": "GlobalOffset: to_local_coordinates is the inverse of from_local_coordinates on valid positions, bounds errors, start_ends_from_intervals, to_local_interval never attributes a boundary-crossing interval; GenomicLocationGlobal.get_windows (flank / window_size) and GenomicIntervalsFull.clip stay inside the location's own chromosome; GenomicIntervalsFull.get_location (start / stop / center, stranded and unstranded) and extended_to_size (each row extended within its own chromosome's size)",
  "C11": "_chunk_entries generator: order and content preserved, every in-loop chunk has exactly n entries (obligations at every yield); io.parser.chunk_lines (nested loops) with the same clauses on the line abstraction; bincount_reduce (padded sum); streamable._args_stream (5 argument shapes): each stream's chunk goes into that stream's own argument slot, one call per chunk of the shortest stream",
  "C12": "GenomeContext._included_groups and GenomeContext.iter_chromosomes as generators with obligations at every yield: j-th table is the group named order(j) or empty, each group consumed once in order, completion implies nothing left over; streams.left_join (one triple per left group, right data joined only under the same name, left-overs raise); SynchedStream.__iter__ (k-th yield is contig k's group or the default, subscript in range, completion implies every group reached its own contig)",
  "C13": "trimming/row-locality arithmetic of RollableFunction.rolling_window and kmers.convolution for ragged input and any window >= 1; KmerEncoder.__call__/inverse: code = little-endian base-|A| number and renders back, for 14 concrete (|A|, k) pairs (each a full-domain proof); KmerEncoding.to_string: the digits taken out of a scalar code are the window's letters (8 pairs incl. |A| = 2, 3)",
- "C14": "ASCII complement table (both cases, involution), complement(ragged), get_reverse_complement(ragged), WindowFunction.windowed: translation goes codon by codon within a row (row starts are multiples of 3: lemma by induction)",
+ "C14": "ASCII complement table (both cases, involution), complement(ragged), get_reverse_complement(ragged), WindowFunction.windowed: translation goes codon by codon within a row (row starts are multiples of 3: lemma by induction); GenomicSequence.extract_intervals: row i is the extracted sequence on '+' and its reverse complement otherwise (row-wise np.where on ragged operands: assumed primitive)",
  "C15": "OneLineBuffer._validate (2 and 4 lines per entry) and FastQBuffer._validate: raises iff a record lacks its marker / '+' line, line number of the FIRST offender; NumpyFileReader.read_chunk adds the chunk's base line exactly once to a propagated format error; DelimitedBuffer._get_field_by_number: the row reported for a column encoding error contains the offending character (digit matrix and ragged text)",
  "C16": "BamBufferExtractor fixed-offset fields and derived variable-field offsets against the SAM spec table, _get_sequences (4-bit unpacking, high nibble first, trimmed to l_seq), _get_quality, _get_read_name (NUL dropped), _get_cigar (uint32 words, op = low 4 bits, length = word >> 4) - these four modularly over abstract offset arrays -, split_cigar, BamBuffer._find_starts (block_size chaining, maximality), count_reference_length (exactly M,D,N,=,X), alignment_to_interval (stop, strand bit 0x10)",
  "C17": "IndexedFasta.__getitem__ (row/column reshape against the faidx layout predicate), get_contig_lengths, create_index offset accumulation (2 and 3 chunks), get_interval_sequences: row lengths, allocation offsets, deleted positions = newline bytes (the content clause itself is bounded); _get_interval_sequences_fast: the same accounting clauses for the vectorised path; FastaIdxBuffer.get_data: name / offset / lenc / lenb / byte_size columns of the per-chunk index rows (partial correctness; the length column is bounded)",
- "C18": "the exact decimal digit count (_n_decimal_digits) for every magnitude below 2**63 (19-case split over the real table); str_to_int on a fixed-width digit matrix (widths 1, 2, 7, 19); _build_power_array for every batch; ints_to_strings (row length = digits + sign, '-' first, character k is the digit of its own row's exponent) modularly over those two",
+ "C18": "the exact decimal digit count (_n_decimal_digits) for every magnitude below 2**63 (19-case split over the real table); str_to_int on a fixed-width digit matrix (widths 1, 2, 7, 19); _build_power_array for every batch; ints_to_strings (row length = digits + sign, '-' first, character k is the digit of its own row's exponent) modularly over those two; TextBufferExtractor.get_digit_array (dispatcher in front of the digit matrix: signed columns never reach the digits-only path)",
  "C19": "BNPDataClass.sort_by (one sorting permutation applied to every column, operand unmodified, given np.argsort's partial contract and the assumed column-wise indexing); add_fields (constructor receives the operand's columns plus the given ones, a given column wins); the re-target rule for pre-encoded columns; everything else of this property is npstructures / run-time class construction and is bounded",
- "C20": "frame conditions (heap model): str_to_int, str_to_float (callees that overwrite their argument only receive copies), merge_intervals",
+ "C20": "frame conditions (heap model): str_to_int, str_to_float (callees that overwrite their argument only receive copies), merge_intervals; frame conditions of extend_to_size and clip (no write reaches a column of the caller's table, the result's start / stop columns are new arrays)",
 }
 BOUNDED_ONLY = {
 }
